@@ -81,7 +81,9 @@ class LockEngine(Engine):
         if callee in UNLOCKS:
             m = self._mutex_arg(inst, args)
             was = ('held', m) in st.ghost
-            self.record(Record('release', inst, st, mutex=m, was_held=was, held=dict(self.held(st)), entry=self.entry_name),
+            o_ = self.obj_of_mutex(m)
+            self.record(Record('release', inst, st, mutex=m, was_held=was, held=dict(self.held(st)), entry=self.entry_name, callee=callee,
+                               dirty=bool(st.ghost.get(('dirty', o_)))),
                         ('rel', inst.fn.name, inst.id, st.stack(), was, tuple(sorted(st.ghost.items(), key=repr))))
             st.ghost.pop(('held', m), None)
             o = self.obj_of_mutex(m)
@@ -89,6 +91,7 @@ class LockEngine(Engine):
             if st.ghost.get(('enq_local', o)) == 1:
                 st.ghost[('enq_local', o)] = 2          # the record is now visible to wakers
             st.ghost.pop(('discval', o), None)
+            st.ghost.pop(('dirty', o), None)
             return [(st, TOP)]
         if callee in CONDWAITS:
             m = self._mutex_arg(inst, args)
@@ -98,6 +101,7 @@ class LockEngine(Engine):
             o = self.obj_of_mutex(m)
             st.ghost.pop(('obs', o), None)          # the lock was released while waiting: earlier observations are stale
             st.ghost.pop(('discval', o), None)
+            st.ghost.pop(('dirty', o), None)          # a conditional wait releases with a full wake-up scan
             st.ghost[('waited', o)] = 1
             return [(st, TOP)]
         if callee in PURE_SIGN:
@@ -251,6 +255,18 @@ class LockEngine(Engine):
                 el = (self.callargs.get((self.entry_name, v.base)) or [None, None])[1]
                 if isinstance(el, Ptr) and el.base.startswith('alloca:'):
                     st.ghost[('enq_local', obj)] = 1           # a record living in this thread's frame is put on a shared list
+            if fld in self.list_fields and isinstance(v, Ptr) and self.callsite.get(v.base) == 'nsync_dll_remove_':
+                el = (self.callargs.get((self.entry_name, v.base)) or [None, None])[1]
+                # which notes has this thread found, in their current critical section, to have nobody else disconnecting them?
+                dz = set()
+                for k2, v2 in st.ghost.items():
+                    if isinstance(k2, tuple) and k2[0] == 'discval' and is_expr(v2) and v2[2] == ('s',) and st.S.get(v2[1]) == frozenset((0,)):
+                        dz.add(k2[1])
+                self.record(Record('unlink', inst, st, field=fld, obj=obj, element=el, disczero=dz, held=dict(self.held(st)), entry=self.entry_name),
+                            ('unlink', inst.fn.name, inst.id, st.stack(), repr(el), tuple(sorted(dz, key=repr))))
+            if fld in self.list_fields or fld in self.ready_fields:
+                # C09.R8: this critical section changed state that conditional waiters of the object's mutex may be waiting for
+                st.ghost[('dirty', obj)] = 1
             if fld.endswith('.disconnecting'):
                 if is_expr(v):
                     st.ghost[('discval', obj)] = v
